@@ -96,12 +96,18 @@ def strv(s):
     return _str_consts[s][0]
 
 
-def str_axioms():
-    from .ops import vt_axiom
+def str_axioms(finite=None):
+    from .ops import vt_axiom, VT
     _n = z3.Int("ax_n")
-    ax = [str_id(NONE) == 0, vt_axiom(),
-          # int2v is injective (retraction) and never yields None
-          z3.ForAll([_n], z3.And(v2int(int2v(_n)) == _n, int2v(_n) != NONE), patterns=[int2v(_n)])]
+    if finite is not None:
+        # quantifier-free instances for the finite refuter
+        ax = [str_id(NONE) == 0]
+        for i in range(-2, finite + 3):
+            ax += [VT(z3.IntVal(i)), v2int(int2v(z3.IntVal(i))) == i, int2v(z3.IntVal(i)) != NONE]
+    else:
+        ax = [str_id(NONE) == 0, vt_axiom(),
+              # int2v is injective (retraction) and never yields None
+              z3.ForAll([_n], z3.And(v2int(int2v(_n)) == _n, int2v(_n) != NONE), patterns=[int2v(_n)])]
     for s, (c, i) in _str_consts.items():
         ax.append(str_id(c) == i)
     return ax
@@ -1154,6 +1160,11 @@ class Engine:
             return generators.do_yield(self, PNONE, st, fr, k, e)
         return self.ev(e.value, st, fr, lambda v, s: generators.do_yield(self, v, s, fr, k, e))
 
+    def ev_YieldFrom(self, e, st, fr, k):
+        """``yield from <expr>``: the sub-generator's items are not tracked individually (the contract of the call
+        that builds it records what it stands for)."""
+        return self.ev(e.value, st, fr, lambda v, s: k(PNONE, s))
+
     def ev_GeneratorExp(self, e, st, fr, k):
         return self.comprehension(e, st, fr, k, "gen")
 
@@ -1200,11 +1211,15 @@ class Engine:
                                     return conds(j + 1, s4)
                                 if z3.is_false(c):
                                     return go(i + 1, s4)
-                                raise Unsupported("comprehension filter that is not decided on a concrete sequence")
+                                raise _UndecidedFilter()
                             return self.ev(g.ifs[j], s3, fr, after)
                         return conds(0, s2)
                     return self.assign(g.target, items[i], s1, fr, bound, e)
-                return go(0, s0)
+                try:
+                    return go(0, s0)
+                except _UndecidedFilter:
+                    cid = self.comp_ordinal(e)
+                    return k(Opq(z3.Const(f"comp:{self.cur.qualname.split('.')[-1]}:{cid}", V)), s0)
             # symbolic sequence (heap list / array column / zip of them): a lazy element-wise vector
             if kind in ("list", "gen") and not g.ifs and (
                     (isinstance(it, Ref) and it.kind == "list") or isinstance(it, (Arr, Vec, PyZip, PyEnum))):
@@ -1656,6 +1671,10 @@ class Engine:
     def ex_For(self, s, st, fr, k):
         from . import loops
         return loops.for_loop(self, s, st, fr, k)
+
+
+class _UndecidedFilter(Exception):
+    pass
 
 
 class RowView:
